@@ -2,8 +2,8 @@
 From PV Require Import Base.Prelude Model.Paths Model.Include Model.FilesInst Spec.SpliceSpec
   Spec.PathSpec Proofs.PathProofs Proofs.IncludeProofs Generated.T_files_p8.
 
-Lemma pin_newline_kind : include_newline_kind = 1 /\ include_cart_lines_kind = 1.
-Proof. split; reflexivity. Qed.
+Lemma pin_newline_kind : include_newline_kind = 1 /\ include_cart_lines_kind = 1 /\ include_name_decode_kind = 1.
+Proof. repeat split; reflexivity. Qed.
 
 (* ------------------------------------------------------------------ A. the splice equation *)
 Fixpoint collect (rs : list (result (list bytes))) : result (list bytes) :=
@@ -14,6 +14,8 @@ Fixpoint collect (rs : list (result (list bytes))) : result (list bytes) :=
 
 Section SpliceA.
 Variable nl_kind : Z.
+Variable have_root : bool.
+Variable decode : bytes -> result bytes.
 Variable resolve : bytes -> result bytes.
 Variable target : bytes -> bytes -> option (list bytes).
 
@@ -21,11 +23,11 @@ Variable target : bytes -> bytes -> option (list bytes).
 Definition expand_line (l : bytes) : result (list bytes) :=
   match match_include_line l with
   | None => Ok [l]
-  | Some (path, ext, tab) => include_lines nl_kind resolve target path ext tab
+  | Some (path, ext, tab) => include_lines nl_kind have_root decode resolve target path ext tab
   end.
 
 Lemma process_includes_collect lines :
-  process_includes nl_kind resolve target lines = collect (map expand_line lines).
+  process_includes nl_kind have_root decode resolve target lines = collect (map expand_line lines).
 Proof.
   induction lines as [|l r IH]; [reflexivity|].
   cbn [process_includes map collect]. unfold expand_line at 1.
@@ -67,7 +69,7 @@ Qed.
 (* C20_splice: a successful run is the concatenation, in order, of what each line expands to;
    a line that is not an include line expands to itself *)
 Lemma splice_ok lines out :
-  process_includes nl_kind resolve target lines = Ok out ->
+  process_includes nl_kind have_root decode resolve target lines = Ok out ->
   exists chunks, Forall2 (fun l c => expand_line l = Ok c) lines chunks /\ out = concat chunks.
 Proof.
   rewrite process_includes_collect. intros H. apply collect_ok in H as (ch & Hm & ->).
@@ -79,7 +81,7 @@ Qed.
 
 Lemma splice_complete lines chunks :
   Forall2 (fun l c => expand_line l = Ok c) lines chunks ->
-  process_includes nl_kind resolve target lines = Ok (concat chunks).
+  process_includes nl_kind have_root decode resolve target lines = Ok (concat chunks).
 Proof.
   intros H. rewrite process_includes_collect.
   assert (E : map expand_line lines = map Ok chunks).
@@ -92,7 +94,7 @@ Proof. unfold expand_line. intros ->. reflexivity. Qed.
 
 (* a line whose expansion fails makes the whole run fail; the first such line decides the error *)
 Lemma splice_error lines l e :
-  In l lines -> expand_line l = Err e -> exists e', process_includes nl_kind resolve target lines = Err e'.
+  In l lines -> expand_line l = Err e -> exists e', process_includes nl_kind have_root decode resolve target lines = Err e'.
 Proof.
   intros Hin He. rewrite process_includes_collect. apply (collect_some_err _ e).
   rewrite <- He. apply in_map. exact Hin.
@@ -100,7 +102,7 @@ Qed.
 
 Lemma splice_first_error pre l post chunks e :
   Forall2 (fun l c => expand_line l = Ok c) pre chunks -> expand_line l = Err e ->
-  process_includes nl_kind resolve target (pre ++ l :: post) = Err e.
+  process_includes nl_kind have_root decode resolve target (pre ++ l :: post) = Err e.
 Proof.
   intros Hp He. rewrite process_includes_collect, map_app. cbn [map]. rewrite He.
   assert (E : map expand_line pre = map Ok chunks).
